@@ -91,8 +91,58 @@ macro_rules! ge_full_rank {
     };
 }
 
+/// Consistent-by-construction systems: the constant of every equation is the value of its left-hand
+/// side under a symbolic assignment `t` (so the system is solvable for every `t`, with `t` a
+/// witness); the solver must return `Ok(s)` with `check(s)`. Because the constants are built
+/// syntactically from `t`, rows that cancel reduce to a constant the symbolic-execution simplifier
+/// folds to zero. (Tried as a way to reach three and four equations: those shapes still exhaust 16 GB;
+/// kept for the two-equation shapes, where it states 'solvable implies Ok(s) and check(s)' directly.)
+fn run_consistent<const E: usize, const V: usize>(shape: [&[u32]; E]) {
+    let t: [u8; V] = kani::any();
+    let mut sys = Modulo2System::<u8>::new(V);
+    let mut orig = Modulo2System::<u8>::new(V);
+    let mut k = 0;
+    while k < E {
+        let mut c = 0u8;
+        let mut j = 0;
+        while j < shape[k].len() {
+            c ^= t[shape[k][j] as usize];
+            j += 1;
+        }
+        sys.push(unsafe { Modulo2Equation::from_parts(shape[k].to_vec(), c) });
+        orig.push(unsafe { Modulo2Equation::from_parts(shape[k].to_vec(), c) });
+        k += 1;
+    }
+    match sys.gaussian_elimination() {
+        Ok(s) => {
+            assert!(orig.check(&s), "Ok(s) with an assignment that violates an equation");
+            kani::cover!(true, "solved");
+            std::mem::forget(s);
+        }
+        Err(e) => {
+            assert!(false, "error on a system that has a solution by construction");
+            std::mem::forget(e);
+        }
+    }
+    std::mem::forget((sys, orig));
+}
+
+macro_rules! ge_consistent {
+    ($name:ident, $v:expr, [$($eq:expr),+ $(,)?]) => {
+        #[kani::proof]
+        #[kani::unwind(8)]
+        #[kani::stub(std::backtrace::Backtrace::capture, no_backtrace)]
+        pub fn $name() {
+            run_consistent::<{ [$(stringify!($eq)),+].len() }, $v>([$(&$eq[..]),+]);
+        }
+    };
+}
+
 pub mod q {
     use super::*;
+    // consistent-by-construction variants of shapes with a repeated row
+    ge_consistent!(cons_e2_repeated_row, 2, [[0u32, 1], [0u32, 1]]);
+    ge_consistent!(cons_e2_same_single, 1, [[0u32], [0u32]]);
     // one equation
     ge_full_rank!(e1_x0, 1, [[0u32]]);
     ge_full_rank!(e1_x0x1_unused_x2, 3, [[0u32, 1]]);
